@@ -665,24 +665,31 @@ func Run(cfg hx.Config) error {
 	if err := e.corpus(); err != nil {
 		return err
 	}
-	e.rpmCaretWitness()
-	e.archOps(cfg.N(300, 3000))
-	e.rpmCompareOps(cfg.N(6000, 250000))
-	e.rpmMatcherOps(cfg.N(40, 2000))
-	e.freeRpmMatcherOps(cfg.N(1500, 60000))
-	e.debWitness()
-	e.debCompareOps(cfg.N(5000, 180000))
-	e.debMatcherOps(cfg.N(40, 2000))
-	e.apkCompareOps(cfg.N(5000, 180000))
-	e.apkMatcherOps(cfg.N(40, 2000))
-	e.rangeOps(cfg.N(1500, 150000))
-	e.ctlOps(cfg.N(25, 1500))
-	e.multiRecordOps(cfg.N(40, 2000))
-	e.cpeSubOps(cfg.N(300, 5000))
-	e.scanOps(cfg.N(60, 3000))
-	e.urlQueryOps(cfg.N(600, 20000))
-	e.osvMatcherOps(cfg.N(30, 2000))
-	e.osvFreeOps(cfg.N(1500, 100000))
+	phase := func(name string, f func()) {
+		t0 := time.Now()
+		f()
+		if os.Getenv("C03_TIMING") != "" {
+			fmt.Fprintf(os.Stderr, "c03 phase %-18s %6.1fs\n", name, time.Since(t0).Seconds())
+		}
+	}
+	phase("rpmCaretWitness", func() { e.rpmCaretWitness() })
+	phase("archOps", func() { e.archOps(cfg.N(300, 3000)) })
+	phase("rpmCompareOps", func() { e.rpmCompareOps(cfg.N(6000, 200000)) })
+	phase("rpmMatcherOps", func() { e.rpmMatcherOps(cfg.N(40, 1200)) })
+	phase("freeRpmMatcherOps", func() { e.freeRpmMatcherOps(cfg.N(1500, 60000)) })
+	phase("debWitness", func() { e.debWitness() })
+	phase("debCompareOps", func() { e.debCompareOps(cfg.N(5000, 150000)) })
+	phase("debMatcherOps", func() { e.debMatcherOps(cfg.N(40, 2000)) })
+	phase("apkCompareOps", func() { e.apkCompareOps(cfg.N(5000, 150000)) })
+	phase("apkMatcherOps", func() { e.apkMatcherOps(cfg.N(40, 2000)) })
+	phase("rangeOps", func() { e.rangeOps(cfg.N(1500, 100000)) })
+	phase("ctlOps", func() { e.ctlOps(cfg.N(25, 1000)) })
+	phase("multiRecordOps", func() { e.multiRecordOps(cfg.N(40, 1400)) })
+	phase("cpeSubOps", func() { e.cpeSubOps(cfg.N(300, 5000)) })
+	phase("scanOps", func() { e.scanOps(cfg.N(60, 2000)) })
+	phase("urlQueryOps", func() { e.urlQueryOps(cfg.N(600, 20000)) })
+	phase("osvMatcherOps", func() { e.osvMatcherOps(cfg.N(30, 1200)) })
+	phase("osvFreeOps", func() { e.osvFreeOps(cfg.N(1500, 80000)) })
 	if err := e.flushPending(); err != nil {
 		return err
 	}
